@@ -33,7 +33,9 @@ type selector struct {
 	Funcs string   `json:"funcs"` // regexp on function key
 	Kinds []string `json:"kinds"` // obligation kind prefixes: idx slice nil div make typeassert shift panic pre post inv-init inv-pres dec frame
 	Tag   string   `json:"tag"`   // for post/inv: clause tag that must be present ("" = any)
+	Exclude string `json:"exclude"` // regexp on function keys left out (with the reason given in the property file)
 	re    *regexp.Regexp
+	reEx  *regexp.Regexp
 }
 
 var safetyKinds = []string{"idx", "slice", "nil", "div", "make", "typeassert", "shift", "panic", "devirt"}
@@ -44,6 +46,14 @@ func (s *selector) match(o *Obl) bool {
 	}
 	if !s.re.MatchString(o.Func) {
 		return false
+	}
+	if s.Exclude != "" {
+		if s.reEx == nil {
+			s.reEx = regexp.MustCompile(s.Exclude)
+		}
+		if s.reEx.MatchString(o.Func) {
+			return false
+		}
 	}
 	kind := o.Kind
 	if i := strings.Index(kind, ":"); i >= 0 {
